@@ -566,7 +566,7 @@ def search_native(fn, label, kinds, pool, seed=0, budget_s=8.0, max_trials=20000
             for name, k in kinds.items():
                 if name not in inputs:
                     inputs[name] = _gen_input(rnd, k[0], k[1], pool)
-            for _ in range(rnd.choice([1, 1, 2, 3])):
+            for _ in range(rnd.choice([0, 0, 1, 1, 2, 3])):
                 name = rnd.choice(list(inputs.keys()))
                 k = kinds.get(name, ("json", None))
                 if k[0] in ("dict", "list", "json"):
